@@ -29,12 +29,17 @@ def joinRows (m : List StdCol) (tables : List Table) : List (List Row) :=
 /-- the match attribute an SQL identifier names (`none`: not a standard attribute) -/
 def matchCol (k : Py.Str) : Option StdCol := StdCol.all.find? (fun c => ciEq c.pyName k)
 
+/-- the match attributes as far as they reach SQLite: the ON conditions are built by the loops over the PAIRS of tables, so with fewer
+    than two structures the statement has no ON clause and the names in `match` are never looked at (an unknown one is no error) -/
+def matchCols (db : Db) (mnames : List Py.Str) : Option (List StdCol) :=
+  if db.tabs.length < 2 then some [] else mnames.mapM matchCol
+
 /-- `get_intersection(column, match)`: per table, the list of the requested attributes of its row in every
     joined tuple (no flattening, no −1 on rowID: the code slices raw SQL rows) -/
 def getIntersection (db : Db) (column : Py.Str) (mnames : List Py.Str) : Except Err (List (List (List Val))) :=
   if !db.extra.isEmpty then .error (.unmodelled "added columns in a many2sql join") else
   let colNames := if column = "*".toList then StdCol.all.map StdCol.pyName else Py.splitOn ',' column
-  match mnames.mapM matchCol, colNames.mapM (fun n => sqlCol db (Py.strip n)) with
+  match matchCols db mnames, colNames.mapM (fun n => sqlCol db (Py.strip n)) with
   | some m, some cols =>
     if cols.contains .rowID then .error (.unmodelled "rowID requested from a join") else
     let joined := joinRows m (db.tabs.map (·.rows))
@@ -52,7 +57,7 @@ def component (joined : List (List Row)) (k : Nat) : Table := joined.filterMap (
     an empty intersection cannot be turned into a database (IndexError on the empty list of lines) -/
 def intersect (roundtrip : Table → Table) (db : Db) (mnames : List Py.Str) : Except Err Db :=
   if !db.extra.isEmpty then .error (.unmodelled "added columns in a many2sql join") else
-  match mnames.mapM matchCol with
+  match matchCols db mnames with
   | none => .error .operational
   | some m =>
     let joined := joinRows m (db.tabs.map (·.rows))
